@@ -543,10 +543,12 @@ def run(tier="quick", seed=0):
                "E5", success_clause="auto_placement_should_succeed_5_fields", max_assignments=8)
 
     viol = []
-    for clause in sorted(found, key=lambda c: found[c][0][:2]):
-        for _, _, v in found[clause]:
-            viol.append(v)
-    viol = viol[:8]
+    order = sorted(found, key=lambda c: found[c][0][:2])
+    for rank in range(MAX_PER_CLAUSE):      # the smallest input of every clause first, then the second smallest
+        for clause in order:
+            if rank < len(found[clause]):
+                viol.append(found[clause][rank][2])
+    viol = viol[:6]
     secs = time.time() - t0
     return {"name": "c08_bitfield", "evaluations": ev, "distinct_nontrivial": len(distinct),
             "rule": ("a case = bit-field length + sequence of field definitions (each at top level or in the scope bf(parent=0|1) of an earlier field, depth <= 3: "
@@ -559,7 +561,7 @@ def run(tier="quick", seed=0):
                      "refused, success clause (no explicit start, single layout, co-present widths sum <= L => assign_fields succeeds). Layers %r: A exhaustive numerics for 1-2 fields "
                      "(start 0..L, lengths/widths 1..3, 1..L+1 for one field); B every structure x order x explicit/automatic mode for 3 (and %s 4) fields with drawn numerics, L in 4..8 "
                      "(7%% 32/64); C every tag placement over every structure; D every all-automatic structure with widths 1..2 in the exactly-filled and one-bit-larger bit field, plus "
-                     "32/64-bit fields filled to the last bit; E all-automatic 5-field structures. non-trivial = laid out with >= 2 complete assignments compared, or rejected; "
+                     "32/64-bit fields filled to the last bit; E all-automatic 5-field structures (inner widths 1..2, exactly filled; own clause name). non-trivial = laid out with >= 2 complete assignments compared, or rejected; "
                      "outcomes %r" % (MAX_ASSIGNMENTS, layers, "every" if thorough else "a seeded 20% of", stats)),
-            "bound": "<= 4 fields (5 all-automatic), depth <= 3, scope values 0/1, bit-field lengths 4..8 and 32/64, explicit lengths / automatic widths 1..3 (up to L for single fields and long bit fields)",
+            "bound": "<= 4 fields (5 in the all-automatic layer E), depth <= 3, scope values 0/1, bit-field lengths 4..8 and 32/48/64 (layers D/E: the exactly filled length, 1..10), explicit lengths / automatic widths 1..3 (up to L for single fields and long bit fields)",
             "exhaustive": False, "label": "bounded", "samples": samples, "violations": viol, "seconds": round(secs, 2)}
